@@ -191,28 +191,35 @@ theorem comment_extent (b r : Str) (hb : ∀ c ∈ b, c ≠ '*') :
     rw [List.cons_append, consumeComment.eq_def]
     simp_all
 
-/-! ### the three places where the code departs from the specification (negation witnesses:
-the same inputs are replayed against the real code by the harness, `EdgeCases`) -/
+/-! ### regression examples: the minimal inputs of the four repaired defects (each is also a corpus
+case replayed against the real code first, /verif/corpus/C06).  The `regression_*` theorems give the
+token tree css-syntax-3 prescribes — which the code now produces —, the `former_*` theorems show
+that the corresponding `Quirks` switch still reproduces the old behaviour (so a regression is
+attributed by name). -/
 
-/-- F06-2, `a{/*c`: the specification ends the input inside the block … -/
-theorem F06_2_spec : Tok.beqList (tokenizePre Quirks.spec ['a', '{', '/', '*', 'c'])
+/-- F06-1 (e608d15): a final `-` is a delimiter, after a number, `@`, `#` or alone -/
+theorem regression_F06_1 :
+    Tok.beqList (tokenizePre Quirks.spec ['-']) [.lit 0 ['-']] = true ∧
+    Tok.beqList (tokenizePre Quirks.spec ['1', '-']) [.num 0 ['1'] true, .lit 1 ['-']] = true ∧
+    Tok.beqList (tokenizePre Quirks.spec ['@', '-']) [.lit 0 ['@'], .lit 1 ['-']] = true ∧
+    Tok.beqList (tokenizePre Quirks.spec ['#', '-']) [.hash 0 ['-'] false] = true := by decide
+
+/-- F06-2 (8459ccb), `a{/*c`: EOF inside a comment ends the input at every nesting level -/
+theorem regression_F06_2 : Tok.beqList (tokenizePre Quirks.spec ['a', '{', '/', '*', 'c'])
     [.ident 0 ['a'], .block 1 .curly [.comment 2 ['c']]] = true := by decide
-/-- … the code re-tokenizes the comment body after the block -/
-theorem F06_2_code : Tok.beqList (tokenizePre { commentEof := true } ['a', '{', '/', '*', 'c'])
+theorem former_F06_2 : Tok.beqList (tokenizePre { commentEof := true } ['a', '{', '/', '*', 'c'])
     [.ident 0 ['a'], .block 1 .curly [.comment 2 ['c']], .lit 3 ['*'], .ident 4 ['c']] = true := by decide
 
-/-- F06-3, `url(" \\\\)b`: the bad url ends at the `)` after the escaped backslash … -/
-theorem F06_3_spec : Tok.beqList (tokenizePre Quirks.spec ['u', 'r', 'l', '(', 'a', '"', '\\', '\\', ')', 'b'])
+/-- F06-3 (3ab913e), `url(a"\\\\)b`: the bad url ends at the `)` after the escaped backslash -/
+theorem regression_F06_3 : Tok.beqList (tokenizePre Quirks.spec ['u', 'r', 'l', '(', 'a', '"', '\\', '\\', ')', 'b'])
     [.error 0 'u', .ident 9 ['b']] = true := by decide
-/-- … the code swallows the identifier that follows -/
-theorem F06_3_code : Tok.beqList (tokenizePre { badUrlPair := true } ['u', 'r', 'l', '(', 'a', '"', '\\', '\\', ')', 'b'])
+theorem former_F06_3 : Tok.beqList (tokenizePre { badUrlPair := true } ['u', 'r', 'l', '(', 'a', '"', '\\', '\\', ')', 'b'])
     [.error 0 'u'] = true := by decide
 
-/-- F06-4, `url(a\<newline>)`: an invalid escape makes the url a bad url … -/
-theorem F06_4_spec : Tok.beqList (tokenizePre Quirks.spec ['u', 'r', 'l', '(', 'a', '\\', '\n', ')'])
+/-- F06-4 (228f7bb), `url(a\\<newline>)`: an invalid escape makes the url a bad url -/
+theorem regression_F06_4 : Tok.beqList (tokenizePre Quirks.spec ['u', 'r', 'l', '(', 'a', '\\', '\n', ')'])
     [.error 0 'u'] = true := by decide
-/-- … the code keeps the backslash as a url character -/
-theorem F06_4_code : Tok.beqList (tokenizePre { urlBackslashNl := true } ['u', 'r', 'l', '(', 'a', '\\', '\n', ')'])
+theorem former_F06_4 : Tok.beqList (tokenizePre { urlBackslashNl := true } ['u', 'r', 'l', '(', 'a', '\\', '\n', ')'])
     [.url 0 ['a', '\\'] false] = true := by decide
 
 /-! ## recovery at the component-value level (P1): declarations, at-rules, qualified rules -/
